@@ -345,7 +345,7 @@ func LoadContracts(repo string, pkgDirs []string) (*ContractSet, error) {
 	}
 	// apply protocols: their clauses are added to the (possibly new) contract of each listed function
 	for _, a := range cs.applies {
-		p := cs.Protocols[a.proto]
+		p := cs.Protocols[a.unit.Name+"/"+a.proto]
 		if p == nil {
 			return nil, fmt.Errorf("%s:%d: unknown protocol %s", a.file, a.line, a.proto)
 		}
@@ -515,7 +515,7 @@ func (cs *ContractSet) parseFile(file, relDir string) error {
 			if cs.Protocols == nil {
 				cs.Protocols = map[string]*Contract{}
 			}
-			cs.Protocols[cur.Key] = cur
+			cs.Protocols[unit.Name+"/"+cur.Key] = cur
 		case "func", "extern", "lemma":
 			if unit == nil {
 				return fmt.Errorf("%s:%d: %s outside unit", file, s.line, s.kw)
